@@ -390,6 +390,21 @@ struct CurFile {
     f: Option<std::fs::File>,
 }
 
+static CUR_NOTE: std::sync::Mutex<Option<std::fs::File>> = std::sync::Mutex::new(None);
+
+/// For enumerated parts whose cases may kill the process: records the replay vector of the case about to run, so that
+/// the supervisor can attribute a dead worker to it (same file the random part uses).
+pub fn note_current(v: &[u32]) {
+    if let Ok(mut g) = CUR_NOTE.lock() {
+        if let Some(f) = g.as_mut() {
+            let s = format!("{}\n", choices_to_string(v));
+            let _ = f.seek(SeekFrom::Start(0));
+            let _ = f.write_all(format!("{:012}\n", s.len()).as_bytes());
+            let _ = f.write_all(s.as_bytes());
+        }
+    }
+}
+
 impl CurFile {
     fn write(&mut self, v: &[u32]) {
         if let Some(f) = self.f.as_mut() {
@@ -488,6 +503,11 @@ fn worker_body(prop: &dyn Prop, tier: Tier, seed: u64, worker: usize, workers: u
             .open(dir.join(format!("w{worker}.cur")))
             .ok(),
     };
+    if let Some(f) = cur.f.as_ref().and_then(|f| f.try_clone().ok()) {
+        if let Ok(mut g) = CUR_NOTE.lock() {
+            *g = Some(f);
+        }
+    }
     let mut agg = Agg::default();
     let mut fail: Option<J> = None;
 
@@ -700,8 +720,14 @@ pub fn run_one_child(id: &str, tier: Tier, seed: u64, v: &[u32], strict: bool, t
 /// Shrink a crashing choice vector by child-process round trips (bounded).
 fn shrink_crash(id: &str, tier: Tier, seed: u64, mut v: Vec<u32>) -> Vec<u32> {
     let mut budget = 160;
+    let deadline = Instant::now() + Duration::from_secs(240);
     let crashes = |c: &[u32], budget: &mut i32| -> bool {
         *budget -= 1;
+        if Instant::now() > deadline {
+            // slow crashing cases: stop shrinking, keep what we have
+            *budget = 0;
+            return false;
+        }
         matches!(run_one_child(id, tier, seed, c, false, Duration::from_secs(60)), OneOutcome::Crash(_))
     };
     // truncate
